@@ -7,6 +7,7 @@ import collections
 
 from .lib import *  # noqa: F401,F403
 from .lib import CLASS_MODELS
+from . import interp as I
 
 
 class SDefaultDict(SDict):
@@ -124,3 +125,26 @@ def fresh_deque():
 @function(fresh_deque)
 def f_fresh_deque(it):
     return SObj(collections.deque, {"_items": SList([])})
+
+
+# range(start, stop, step) with concrete start/step > 0 and a symbolic stop: fork over the number of iterations (exact; paths
+# beyond max_unroll iterations are truncated and reported as bounded). Extends whatever range model is registered so far.
+from .lib import FUNCTIONS as _FUNCTIONS  # noqa: E402
+
+_prev_range = _FUNCTIONS[id(range)][1]
+
+
+def _range_symbolic_stop_with_step(it, *a):
+    vals = [it.resolve(x) for x in a]
+    if len(vals) == 3 and vals[0].concrete() is not None and vals[2].concrete() is not None and vals[2].concrete() > 0 and vals[1].concrete() is None \
+            and isinstance(vals[1], SInt):
+        start, step, stop = vals[0].concrete(), vals[2].concrete(), vals[1]
+        for k in range(0, it.ex.max_unroll + 1):
+            if it.branch(SBool(stop.t <= start + k * step)):
+                return SList([SInt(start + i * step) for i in range(k)])
+        it.ex.note("bounded", f"range(start, symbolic stop, step): at most {it.ex.max_unroll} iterations explored")
+        raise I.PathEnd("range bound", truncated=True)
+    return _prev_range(it, *a)
+
+
+_FUNCTIONS[id(range)] = (range, _range_symbolic_stop_with_step)
